@@ -36,6 +36,12 @@ func (x *Exec) globalPtr(g *ssa.Global) PtrV {
 	}
 	p := x.PtrFromTerm(BVInt(int64(id), 32), g.Type())
 	p.NonNil = true
+	if x.globalPinned == nil {
+		x.globalPinned = map[*ssa.Global]bool{}
+	}
+	if !x.globalPinned[g] {
+		x.constrainGlobal(g, p)
+	}
 	return p
 }
 
@@ -191,7 +197,7 @@ func (x *Exec) execInstr(fr *Frame, st *State, ins ssa.Instruction) error {
 		}
 		if len(p.Path) == 0 && !p.NonNil {
 			x.obligation(fr, ins, "nil", st.PC, Not(Eq(p.Base, BVInt(0, 32))), "nil pointer dereference")
-			x.C.Assume(Implies(st.PC, Not(Eq(p.Base, BVInt(0, 32)))), "continuing past nil check")
+			x.C.Assume(Implies(x.absPC(st.PC),Not(Eq(p.Base, BVInt(0, 32)))), "continuing past nil check")
 		}
 		np := p
 		np.Path = append(append([]Step{}, p.Path...), Step{IsField: true, Field: ins.Field})
@@ -362,7 +368,7 @@ func (x *Exec) binop(fr *Frame, st *State, ins ssa.Instruction, op token.Token, 
 			zero := BVInt(0, w)
 			if ins != nil {
 				x.obligation(fr, ins, "div", st.PC, Not(Eq(B, zero)), "integer divide by zero")
-				x.C.Assume(Implies(st.PC, Not(Eq(B, zero))), "continuing past divide check")
+				x.C.Assume(Implies(x.absPC(st.PC),Not(Eq(B, zero))), "continuing past divide check")
 			}
 			var o string
 			switch {
@@ -654,8 +660,19 @@ func (x *Exec) convert(fr *Frame, st *State, ins *ssa.Convert) error {
 		}
 	}
 	if (fok && fb.Info()&types.IsFloat != 0) || (tok && tb.Info()&types.IsFloat != 0) {
-		x.C.Note("floating point conversion abstracted (fresh value)")
-		fr.Env[ins] = TV{T: x.C.Fresh("fconv", x.C.SortOf(to)), Typ: to}
+		// floating point is not interpreted; conversions are uninterpreted *functions* so that equal inputs give equal outputs
+		x.C.Note("floating point abstracted: int<->float conversions and math.Sqrt are uninterpreted functions (deterministic, otherwise unconstrained)")
+		tvv, isTV := v.(TV)
+		switch {
+		case isTV && fi && tok && tb.Info()&types.IsFloat != 0:
+			fr.Env[ins] = TV{T: x.C.Name(ins.Name(), App(SF64, "f64_of_bv64", Resize(tvv.T, 64, sf))), Typ: to}
+		case isTV && ti && fok && fb.Info()&types.IsFloat != 0:
+			fr.Env[ins] = TV{T: x.C.Name(ins.Name(), Resize(App(SBV(64), "bv64_of_f64", tvv.T), wt, true)), Typ: to}
+		case isTV && tvv.T.Sort == SF64 && x.C.SortOf(to) == SF64:
+			fr.Env[ins] = TV{T: tvv.T, Typ: to}
+		default:
+			fr.Env[ins] = TV{T: x.C.Fresh("fconv", x.C.SortOf(to)), Typ: to}
+		}
 		return nil
 	}
 	if _, ok := to.Underlying().(*types.Pointer); ok {
@@ -752,7 +769,7 @@ func (x *Exec) typeAssert(fr *Frame, st *State, ins *ssa.TypeAssert) error {
 		return nil
 	}
 	x.obligation(fr, ins, "panic", st.PC, ok, "type assertion fails")
-	x.C.Assume(Implies(st.PC, ok), "continuing past type assertion")
+	x.C.Assume(Implies(x.absPC(st.PC),ok), "continuing past type assertion")
 	fr.Env[ins] = res
 	return nil
 }
@@ -772,7 +789,7 @@ func (x *Exec) index(fr *Frame, st *State, ins *ssa.Index) error {
 	switch u := ins.X.Type().Underlying().(type) {
 	case *types.Array:
 		x.obligation(fr, ins, "idx", st.PC, bvCmp("bvult", idx, BVInt(u.Len(), 64)), "array index out of range")
-		x.C.Assume(Implies(st.PC, bvCmp("bvult", idx, BVInt(u.Len(), 64))), "continuing past bounds check")
+		x.C.Assume(Implies(x.absPC(st.PC),bvCmp("bvult", idx, BVInt(u.Len(), 64))), "continuing past bounds check")
 		fr.Env[ins] = x.fromLoaded(st, x.C.Name(ins.Name(), Select(a.T, idx)), ins.Type())
 		return nil
 	case *types.Basic: // string
@@ -800,7 +817,7 @@ func (x *Exec) indexAddr(fr *Frame, st *State, ins *ssa.IndexAddr) error {
 		s := bv.(TV).T
 		ln := SlLen(s)
 		x.obligation(fr, ins, "idx", st.PC, bvCmp("bvult", idx, ln), "slice index out of range")
-		x.C.Assume(Implies(st.PC, bvCmp("bvult", idx, ln)), "continuing past bounds check")
+		x.C.Assume(Implies(x.absPC(st.PC),bvCmp("bvult", idx, ln)), "continuing past bounds check")
 		r, _ := x.elemRegion(u.Elem())
 		fr.Env[ins] = PtrV{Region: r, RootT: u.Elem(), Base: SlBase(s), Path: []Step{{Index: x.C.Name("ix", bvBin("bvadd", SlOff(s), idx))}}, Typ: ins.Type(), Snap: x.isSnap(s)}
 		return nil
@@ -811,7 +828,7 @@ func (x *Exec) indexAddr(fr *Frame, st *State, ins *ssa.IndexAddr) error {
 			x.obligation(fr, ins, "nil", st.PC, Not(Eq(p.Base, BVInt(0, 32))), "nil array pointer")
 		}
 		x.obligation(fr, ins, "idx", st.PC, bvCmp("bvult", idx, BVInt(arr.Len(), 64)), "array index out of range")
-		x.C.Assume(Implies(st.PC, bvCmp("bvult", idx, BVInt(arr.Len(), 64))), "continuing past bounds check")
+		x.C.Assume(Implies(x.absPC(st.PC),bvCmp("bvult", idx, BVInt(arr.Len(), 64))), "continuing past bounds check")
 		np := p
 		np.Path = append(append([]Step{}, p.Path...), Step{Index: idx})
 		np.Typ = ins.Type()
@@ -840,7 +857,7 @@ func (x *Exec) makeSlice(fr *Frame, st *State, ins *ssa.MakeSlice) error {
 	lim := BVUint(1<<40, 64)
 	ok := And(bvCmp("bvsge", ln, BVInt(0, 64)), bvCmp("bvsle", ln, cp), bvCmp("bvule", cp, lim))
 	x.obligation(fr, ins, "alloc", st.PC, ok, "make: len out of range (negative, > cap, or > 2^40 elements)")
-	x.C.Assume(Implies(st.PC, ok), "continuing past make check")
+	x.C.Assume(Implies(x.absPC(st.PC),ok), "continuing past make check")
 	ref := x.AllocBacking(st, elem, nil)
 	fr.Env[ins] = TV{T: x.C.Name(ins.Name(), MkSlice(ref, BVInt(0, 64), ln, cp)), Typ: ins.Type()}
 	return nil
@@ -889,7 +906,7 @@ func (x *Exec) sliceOp(fr *Frame, st *State, ins *ssa.Slice) error {
 		}
 		ok := And(bvCmp("bvule", lo, hi), bvCmp("bvule", hi, mx), bvCmp("bvule", mx, capT))
 		x.obligation(fr, ins, "slice", st.PC, ok, "slice bounds out of range")
-		x.C.Assume(Implies(st.PC, ok), "continuing past slice bounds check")
+		x.C.Assume(Implies(x.absPC(st.PC),ok), "continuing past slice bounds check")
 		ns := MkSlice(SlBase(s), bvBin("bvadd", SlOff(s), lo), bvBin("bvsub", hi, lo), bvBin("bvsub", mx, lo))
 		fr.Env[ins] = TV{T: x.C.Name(ins.Name(), ns), Typ: ins.Type()}
 		return nil
@@ -905,7 +922,7 @@ func (x *Exec) sliceOp(fr *Frame, st *State, ins *ssa.Slice) error {
 		}
 		ok := And(bvCmp("bvule", lo, hi), bvCmp("bvule", hi, mx), bvCmp("bvule", mx, n))
 		x.obligation(fr, ins, "slice", st.PC, ok, "slice bounds out of range")
-		x.C.Assume(Implies(st.PC, ok), "continuing past slice bounds check")
+		x.C.Assume(Implies(x.absPC(st.PC),ok), "continuing past slice bounds check")
 		base := p.Base
 		off := BVInt(0, 64)
 		if len(p.Path) != 0 || p.Region[:2] != "E:" {
@@ -949,7 +966,7 @@ func (x *Exec) sliceToArrayPtr(fr *Frame, st *State, ins *ssa.SliceToArrayPointe
 	s := sv.T
 	ok := bvCmp("bvuge", SlLen(s), BVInt(arr.Len(), 64))
 	x.obligation(fr, ins, "conv", st.PC, ok, "slice to array conversion: length too short")
-	x.C.Assume(Implies(st.PC, ok), "continuing past conversion check")
+	x.C.Assume(Implies(x.absPC(st.PC),ok), "continuing past conversion check")
 	// materialise a fresh array object holding the N elements (copy semantics is what callers use: *(*[N]T)(s))
 	if arr.Len() > 512 {
 		return unsupported("slice to array of length %d", arr.Len())
